@@ -142,6 +142,7 @@ func checkC03(e *Engine, r *Report) {
 				"scenario "+sc.name+": "+e.pathString(p), true)
 		}
 	}
+	checkAnnotationPolarity(e, r, "R2 eligibility table")
 	// ---- rule 1d: the capacities the ranking compares are the pool's allocatable capacities minus the request ----
 	if getScore := r.Anchor(pkgTA, "supply.GetScore"); getScore != nil {
 		fIsoSet := e.Field(pkgTA, "supply", "isolated")
@@ -1109,4 +1110,95 @@ func portionCall(x *ssa.Call, depth int) []string {
 		return nil
 	}
 	return sortedKeys(names)
+}
+
+// checkAnnotationPolarity: the preference helpers of the topology-aware policy read an effective annotation with a
+// comma-ok lookup. When it is absent its (empty) value plays no part in the result; when it is present it is what the
+// result is computed from — the lookup's ok is not read the wrong way round.
+func checkAnnotationPolarity(e *Engine, r *Report, rule string) {
+	n := 0
+	for _, fn := range e.funcsInPkg(pkgTA) {
+		if fn.Parent() != nil {
+			continue
+		}
+		var calls []ssa.CallInstruction
+		AllInstrs(fn, func(in ssa.Instruction) {
+			if c, ok := in.(ssa.CallInstruction); ok && callObj(c.Common()) != nil && callObj(c.Common()).Name() == "GetEffectiveAnnotation" && c.Value() != nil {
+				calls = append(calls, c)
+			}
+		})
+		for _, c := range calls {
+			var okV, valV ssa.Value
+			if c.Value().Referrers() == nil {
+				continue
+			}
+			for _, ref := range *c.Value().Referrers() {
+				if ex, ok := ref.(*ssa.Extract); ok {
+					if ex.Index == 1 {
+						okV = ex
+					} else if ex.Index == 0 {
+						valV = ex
+					}
+				}
+			}
+			if okV == nil || valV == nil {
+				continue
+			}
+			n++
+			isLog := func(ci ssa.CallInstruction) bool {
+				o := callObj(ci.Common())
+				if o == nil {
+					return false
+				}
+				switch o.Name() {
+				case "Debug", "Info", "Warn", "Error", "Debugf", "Infof", "Warnf", "Errorf", "Sprintf":
+					return true
+				}
+				return strings.HasSuffix(o.Name(), "Error")
+			}
+			uses := func(in ssa.Instruction) bool {
+				switch x := in.(type) {
+				case ssa.CallInstruction:
+					if isLog(x) {
+						return false
+					}
+					for _, a := range x.Common().Args {
+						if unspill(a) == valV {
+							return true
+						}
+						if cv, ok := a.(*ssa.Convert); ok && unspill(cv.X) == valV {
+							return true
+						}
+					}
+				case *ssa.BinOp:
+					return unspill(x.X) == valV || unspill(x.Y) == valV
+				case *ssa.Return:
+					for _, res := range x.Results {
+						if unspill(res) == valV {
+							return true
+						}
+					}
+				}
+				return false
+			}
+			present := func(val bool) Assumption {
+				return func(cond ssa.Value) (bool, bool) {
+					if unspill(cond) == okV {
+						return true, val
+					}
+					return false, false
+				}
+			}
+			p1 := FindPath(PathQuery{Fn: fn, From: c.(ssa.Instruction), Assume: present(false), Target: uses})
+			p2 := FindPath(PathQuery{Fn: fn, From: c.(ssa.Instruction), Assume: present(true), Block: uses, Target: isRet})
+			why := ""
+			if p1 != nil {
+				why = "the value of an absent annotation is used: " + e.pathString(p1)
+			} else if p2 != nil {
+				why = "a present annotation is ignored: " + e.pathString(p2)
+			}
+			r.Check("R2:annotation-polarity@"+fn.Name(), rule, "an absent annotation plays no part in the preference and a present one is what the preference is computed from", e.InstrPos(c), fn, p1 == nil && p2 == nil, why, true)
+		}
+	}
+	r.MinInstances("comma-ok annotation lookups in the topology-aware policy", n, 4)
 }
